@@ -22,12 +22,12 @@ CLAIMED = {
         technique="Coq: verified decision procedure for EXPLAIN tree well-formedness (sound+complete) + proofs of count = emitted children on models of the SELECT printers and of the DDL printers (Column, Index, CreateQuery with its Columns/Storage sub-tallies, AlterCommand, AlterQuery, projections, statistics); extraction-based correspondence on ASTs built directly and oracle run on corpus + grammar statements",
         text="C04_tree: check_text accepts exactly the texts that are one rooted tree in EXPLAIN AST layout with correct (children N), no Go artefacts and ClickHouse node kinds (sound and complete w.r.t. rendering of rose trees). C04_select: for the SelectQuery, SelectWithUnionQuery (every union tail), inherited-WITH and intersect printers — transcribed with the count code and the emit code kept separate as in Go — the header count equals the number of emitted children for every field combination (iff the parser-established LIMIT BY invariant for SelectQuery), hence the output is a tree. Tied by Go-vs-extracted-model comparison on ASTs built directly (exhaustive 2^16/2^13 field combinations) and by running the extracted verified checker on the real EXPLAIN of every corpus statement.",
         design_ref="DESIGN.md §4 C04",
-        note="C04_ddl: for Column/Index/projection/Columns-definition/Storage-definition/dictionary/AlterQuery the header count equals the emitted children unconditionally; for AlterCommand and CreateQuery it is an equivalence with an explicit condition (inv_alter_count / inv_create) that excludes only field combinations the parser cannot produce or accepts only for invalid ClickHouse. Partial: expression/table/dictionary-attribute printers and the remaining statement printers are covered only by the verified oracle applied to real output (search), not by a model. Trusted: hand-written printer model (validated by correspondence), extraction, node-kind generator."),
+        note="C04_ddl: for Column/Index/projection/Columns-definition/Storage-definition/dictionary/AlterQuery the header count equals the emitted children unconditionally; for AlterCommand and CreateQuery it is an equivalence with an explicit condition (inv_alter_count / inv_create) that excludes only field combinations the parser cannot produce or accepts only for invalid ClickHouse. C04_stmt: the same for the remaining statement printers (INSERT, DROP, RENAME, EXCHANGE, TRUNCATE, OPTIMIZE, DELETE, CHECK, USE, DESCRIBE, EXISTS, SHOW, SYSTEM, EXPLAIN, ATTACH/DETACH, BACKUP/RESTORE, KILL, CREATE INDEX, UPDATE, PARALLEL WITH, the one-line access-control statements), dictionary.go and tables.go: 151 theorems, unconditional for 22 printers, equivalences with explicit inv_* conditions for the rest (the excluded combinations are unreachable from the parser or accepted only for invalid ClickHouse; witnesses are proved as *_refuted lemmas and listed in the evidence). Partial: the expression / function / type-string printers (expressions.go, functions.go, format.go) are covered only by the verified oracle applied to real output (search), not by a model. Trusted: hand-written printer model (validated by correspondence), extraction, node-kind generator."),
     "C05": dict(
         technique="Coq proofs on the lexer model (separator invisibility, follow-independence, keyword case, position blindness) + abstract-machine indistinguishability theorem instantiated by a generated inventory of position/raw-value reads; metamorphic re-layout run",
         text="C05: over the lexer model, replacing/inserting/removing separators (all whitespace runes, --/# comments, nested block comments) at a token boundary leaves the comment-free token kinds and values unchanged, keyword case never changes a token kind, and the lexer is blind to positions; over parser and printer, the inventory regenerated from /repo shows positions are only copied into nodes, printed in error messages, compared in progress guards or used for the spacing detection inside ::-operand literals (the stated exception), and no raw token value is compared case-sensitively with a keyword-like constant — so by the abstract-machine theorem sig-equal token lists are indistinguishable; semicolon clauses by the driver theorems. Every corpus statement is re-laid-out K times on the implementation and EXPLAIN compared.",
         design_ref="DESIGN.md §4 C05",
-        note="Partial: the unconditional lexer theorems cover identifiers/keywords, integers/decimals, simple quoted tokens and operators (other classes only under a lexer-computed boundary condition); EOF-position caveat (pos_inj hypothesis). Trusted: posreadgen's soundness claim."),
+        note="C05_fragment_*: for the SELECT-core model the parser+printer half is proved directly (no inventory): token lists that agree up to positions and the letter case of keyword-kind tokens give related parses, and equal EXPLAIN text when the keywords used as NAMES are spelled alike (or none is used as a name); composed with the lexer theorems to source texts (C05_fragment_layout, _layout_case). Outside the fragment the parser half rests on the generated inventory. Partial: the unconditional lexer theorems cover identifiers/keywords, integers/decimals, simple quoted tokens and operators (other classes only under a lexer-computed boundary condition); EOF-position caveat (pos_inj hypothesis). Trusted: posreadgen's soundness claim."),
     "C06": dict(
         technique="Coq induction on the ParseStatements model over scripts with arbitrary semicolon placement + simulation proof of delimiter-respect for the SELECT-core parser model + lexer theorems for ';' inside strings and comments + generated inventory of the Parser struct; joined-vs-individual harness; lexer and SELECT-core correspondences",
         text="C06: the driver model maps s1;...;sn (any extra/leading/trailing/doubled semicolons) to the per-statement results in order, threading nothing but remaining tokens and errors; for every byte string v the quoted spelling of v lexes to one STRING token (so a ';' inside never splits), and a separator of whitespace and complete comments (any bodies) is invisible to the token stream. Scripts of corpus/synthetic statements are compared statement by statement with the parts parsed alone.",
@@ -37,7 +37,7 @@ CLAIMED = {
         technique="Coq: shift law of a depth-oblivious printer calculus instantiated by a depth/indent-use inventory regenerated from source + tail-insensitivity on the SELECT printer model + C10's no-hidden-state obligation; embedding harness",
         text="C07_printer: every clean function of internal/explain denotes a trace of a printer calculus that cannot inspect depth (except two allow-listed `depth == 0` tests in explainExplainQuery), hence prints at depth d the depth-0 text shifted by d; the inventory of every use of depth/indent, every write and every (indent, depth) pair is regenerated from /repo and checked in the kernel; over the SELECT printer model a tail-free union prints identically under every union tail and each embedding context contains the query's rendering as a shifted block; no package-level or tree writes (C10). The parser half is covered by the harness: 14 embeddings per SELECT/WITH corpus query and composed queries, each explained after random histories and in fresh processes.",
         design_ref="DESIGN.md §4 C07",
-        note="Partial: parser half (delimiter simulation) not proved. Trusted: depthgen's claim (D); Node dispatch hypothesis."),
+        note="Parser half: proved for the SELECT-core model (C07_fragment_*: FROM subquery, scalar / parenthesised subquery and statement-level parentheses parse the embedded query to the identical AST value, and the printer model shows its lines as a block shifted by 7 / 5 / 6 levels) under the side condition that the query does not end in a comma followed by a clause keyword (`SELECT a, limit` is read differently alone and in parentheses by isClauseKeyword: C07_fragment_*_refuted; not valid ClickHouse); the other embeddings (IN/EXISTS, CTE, JOIN, CREATE VIEW, INSERT SELECT, EXPLAIN) are covered by the harness only. Trusted: depthgen's claim (D); Node dispatch hypothesis."),
     "C08": dict(
         technique="Coq proof by induction over expression trees on a hand-written model of the Pratt parser + independent reference printer; three-way extraction correspondence",
         text="C08_precedence_and_associativity: for every well-formed surface expression tree of the property's language (unbounded depth and operator count) and every follow context, explain_model (parse_model (print e ++ rest)) = reference tree of e (precedence climb OR < AND < NOT < comparison < || < additive < multiplicative < unary minus, left associative, ClickHouse function names, AND/OR/|| chains flattened); plus totality of the model. Tied to the code by comparing code, extracted model and extracted spec on all shapes with up to 3/4 binary operators and random deeper expressions.",
